@@ -520,12 +520,30 @@ func (g *Gen) TruncInputs(r *rand.Rand, nSources, perSource int) []Input {
 // Mix is a number of inputs per family.
 type Mix struct {
 	Random, Mutant, TypeErr, MultiT, MultiP, Verbatim int
+	// structured families (structured.go); MaxDepth bounds the Deep family
+	TmplSyntax, Deep, Amp int
+	MaxDepth              int
 }
 
 // Batch generates the inputs of a mix, interleaved deterministically.
 func (g *Gen) Batch(r *rand.Rand, m Mix) []Input {
 	var out []Input
-	for m.Random+m.Mutant+m.TypeErr+m.MultiT+m.MultiP+m.Verbatim > 0 {
+	if m.MaxDepth <= 0 {
+		m.MaxDepth = 1000
+	}
+	for m.Random+m.Mutant+m.TypeErr+m.MultiT+m.MultiP+m.Verbatim+m.TmplSyntax+m.Deep+m.Amp > 0 {
+		if m.TmplSyntax > 0 {
+			out = append(out, g.TemplateSyntax(r))
+			m.TmplSyntax--
+		}
+		if m.Deep > 0 {
+			out = append(out, g.Deep(r, m.MaxDepth))
+			m.Deep--
+		}
+		if m.Amp > 0 {
+			out = append(out, g.Amp(r))
+			m.Amp--
+		}
 		if m.Random > 0 {
 			out = append(out, g.Random(r))
 			m.Random--
